@@ -99,13 +99,14 @@ REG['C06'] = {
 
 REG['C02'] = {
     'K': [dict(id='c02_k_lunar_order', fn='LunarDay::is_before / is_after / ==', clause='order and equality of two arbitrary well-formed lunar days == order of (year, position of the month in the year, day): a leap month sorts directly after its namesake, for every leap configuration'),
+          dict(id='c02_k_lunar_day_next', fn='LunarDay::next', clause='next(0) is the day itself; otherwise the civil date of the day, stepped by exactly n, converted back (each callee exactly once, recorded)'),
           dict(id='c02_k_lunar_to_solar', fn='LunarDay::get_solar_day', clause='jdn(result) == first day number of the month + day - 1, valid date, memoised answer identical (caller sees only the contract of JulianDay::get_solar_time, noon form; that contract is proved in the thorough tier of C01)')],
     'level': 'proof',
     'design_ref': '5/C02',
     'technique': 'Verus on SolarDay::get_lunar_day extracted verbatim (uninterpreted tiling month table) + bijection/order lemmas + exhaustive execution of both conversions over every date',
     'level_text': 'Deductive part: get_lunar_day returns the month o and day d with FIRST(o)+d-1 == day number and 1<=d<=CNT(o), never refused, for ANY month table that tiles (real loops incl. forward walk); lemmas: tiling => disjoint month intervals => both round trips are identities, consecutive days map to day+1 or day 1 of the next month, (month position, day) order <=> chronological order. Leaf part (bounded, exhaustive execution): every civil date 0001..9999 and every lunar day of years 0..9999 through both conversions, acceptance of day 0 / count+1, before/after over all neighbouring-month pairs incl. leap twins.',
     'level_note': 'assumed (class L): L-NEW tiling (false at four reform-year boundaries = known findings, excluded from the Verus precondition `tiles`), LunarMonth::next contract proved in C03, SolarDay::subtract in C01; LunarDay::new/get_solar_day use RefCell/f64 and are covered by the exhaustive leaf run only',
-    'functions': ['SolarDay::get_lunar_day', 'LunarDay::new (leaf)', 'LunarDay::get_solar_day (leaf)', 'LunarDay::is_before/is_after (leaf)', 'LunarDay::next (leaf)'],
+    'functions': ['SolarDay::get_lunar_day', 'LunarDay::new (K: c13_k_lunar_day_accept)', 'LunarDay::get_solar_day', 'LunarDay::is_before / is_after / ==', 'LunarDay::next', 'LunarHour::is_before / is_after (leaf)', 'LunarMonth::new (index rule K: c03_k_month_new_index; astronomy leaf)'],
     'V': [
         dict(id='c02_lunar_conv', template='verus/c02_lunar_conv.rs', twin_quick=True,
              twin=[('FIRST(r.month_ord()) + r.day() - 1 == self.jdn(),', 'FIRST(r.month_ord()) + r.day() == self.jdn(),')],
@@ -157,6 +158,7 @@ REG['C11'] = {
         dict(id='c06_k_next', fn='SolarTerm::next', clause='24*year+index moves by exactly n'),
         dict(id='c08_k_month_next', thorough_only=True, fn='SixtyCycleMonth::next', clause='12*year + index moves by exactly n (|n| <= 300)'),
         dict(id='c11_k_div_euclid_12', fn='isize::div_euclid (std)', clause='the assumed Verus specification of div_euclid for the divisor 12: floor division, remainder in 0..12'),
+        dict(id='c02_k_lunar_day_next', fn='LunarDay::next', clause='goes through the civil calendar with exactly n'),
         dict(id='c11_k_sixty_day_next', fn='SixtyCycleDay::next', clause='hands exactly n to SolarDay::next on the wrapped day and rebuilds from exactly the day that comes back'),
         dict(id='c11_k_sixty_hour_next', fn='SixtyCycleHour::next', clause='hands exactly n (seconds) to SolarTime::next on the wrapped instant and rebuilds from exactly the instant that comes back'),
         dict(id='c11_k_lunar_hour_carry', fn='LunarHour::next', clause='hour + 2n == 24 * (days handed to LunarDay::next) + new hour, 0 <= new hour < 24, minute and second kept, every hour and |n| < 2^40 (day step and constructor replaced by recording stubs)'),
@@ -248,7 +250,7 @@ REG['C07'] = {
     'technique': 'Kani on the weekday formula through the f64 cast (every day number) + Verus lemmas for continuity + exhaustive execution of all three pillar routes over every date',
     'level_text': 'Deductive part: JulianDay::get_week == (day number + 1) mod 7 for every day number in range (Kani, f64 cast path); +1 per civil day incl. the 1582 cut-over from C01 lemmas. Leaf part (exhaustive execution, every civil date 0001..9999): day pillar == (day number + 49) mod 60 by the lunar-date route, the sexagenary-day view and the civil date; weekday by the civil and lunar routes.',
     'level_note': 'LunarDay::get_sixty_cycle goes through format!/from_name (out of Kani reach, DESIGN 2.3): Kani proves the indices fed to the lookup (recording stubs), the lookup itself is the pillar-name table fact of C19, and the composite is executed for every date; known findings: reform-year windows (consequence of C03) and 0001-01-01..05 (year-0 term)',
-    'functions': ['JulianDay::get_week', 'SolarDay::get_week', 'LunarDay::get_week (leaf)', 'LunarDay::get_sixty_cycle (leaf)', 'SixtyCycleDay::from_solar_day / get_sixty_cycle (leaf)'],
+    'functions': ['JulianDay::get_week', 'SolarDay::get_week', 'LunarDay::get_sixty_cycle (arguments of the name lookup)', 'SixtyCycleDay::from_solar_day (day pillar carried: c08_k_from_solar_day_*)', 'LunarDay::get_week (leaf)', 'name lookup SixtyCycle::from_name (table fact, C19)'],
     'K': [
         dict(id='c07_k_week', sliced=True, quick='all', fn='JulianDay::get_week', clause='index == (N + 1) mod 7 for every integer day number N of 0001-01-01..9999-12-31'),
         dict(id='c07_k_lunar_day_pillar_args', fn='LunarDay::get_sixty_cycle', clause='the stem and branch indices fed to the name lookup are first day number + day - 12 (== day number - 11, i.e. pillar (day number + 49) mod 60); real body, constructors replaced by recording stubs, name lookup decomposed (C19 pillar_name)'),
@@ -322,12 +324,14 @@ REG['C14'] = {
     'technique': 'Verus on SolarWeek::next and LunarWeek::next extracted verbatim (both loops each) + exhaustive execution of the week contract over every civil month x 7 week starts and every lunar month',
     'level_text': 'Deductive part: SolarWeek::next moves the first day by exactly 7n for every week, every n and any month-length / first-weekday tables consistent with consecutive months (Verus, real loops). Leaf part (exhaustive execution): for every civil month 0001-02..9999-11 and every lunar month, 7 week starts, all indices: count == number of rows, first day on the chosen weekday at day1 + 7*index - offset, 7 consecutive days, coverage, refusal of index == count; week of a date contains it; index in year.',
     'level_note': 'week count uses an f64 ceil (outside Verus): its contract ceil((offset+len)/7), assumed by the Verus unit, is proved by Kani on the real body (c14_k_*_week_count) and also executed for every month; the weekday of the first of the month is an arbitrary answer in those harnesses (the weekday formula itself is c07_k_week); LunarWeek::next is verified over an abstract tiling lunar month table (L-NEW)',
-    'functions': ['SolarWeek::next', 'LunarWeek::next', 'SolarMonth::get_week_count', 'LunarMonth::get_week_count', 'SolarWeek::get_first_day', 'LunarWeek::get_first_day', 'SolarDay::get_solar_week', 'SolarWeek::get_days / get_index_in_year', 'LunarWeek::get_days', 'SolarWeek::new / LunarWeek::new (leaf)'],
+    'functions': ['SolarWeek::next', 'LunarWeek::next', 'SolarMonth::get_week_count', 'LunarMonth::get_week_count', 'SolarWeek::get_first_day', 'LunarWeek::get_first_day', 'SolarDay::get_solar_week', 'SolarWeek::get_days / get_index_in_year', 'LunarWeek::get_days', 'SolarWeek::new', 'LunarWeek::new'],
     'K': [
         dict(id='c14_k_solar_week_count', fn='SolarMonth::get_week_count', clause='== ceil((offset of the first of the month in its week + month length) / 7) through the f64 ceil, every month, week start and (arbitrary) weekday of the first'),
         dict(id='c14_k_solar_week_first_day', fn='SolarWeek::get_first_day', clause='steps 7*index - offset days from the first of the month (day step recorded)'),
         dict(id='c14_k_day_to_week', fn='SolarDay::get_solar_week', clause='week index == floor((days since the first + offset) / 7) of the same month and start, every valid date'),
         dict(id='c14_k_lunar_week_count', fn='LunarMonth::get_week_count', clause='same as the civil count for 29/30-day months'),
+        dict(id='c14_k_solar_week_accept', fn='SolarWeek::new', clause='accepted <=> index <= 5, start <= 6 and index < week count of the month; components stored as given'),
+        dict(id='c14_k_lunar_week_accept', fn='LunarWeek::new', clause='same rule for lunar weeks (leap months included)'),
         dict(id='c14_k_lunar_week_first_day', fn='LunarWeek::get_first_day', clause='steps 7*index - offset days from day 1 of the same lunar month (leap flag kept)'),
     ],
     'V': [
@@ -347,10 +351,11 @@ REG['C15'] = {
     'design_ref': '5/C15',
     'technique': 'Verus on get_nine_day / get_dog_day / get_plum_rain_day / get_phenology_day extracted verbatim against spec functions over an uninterpreted term-day table and the day pillar; exhaustive execution incl. the commanding-stem allotment table',
     'level_text': 'Deductive part (Verus, real function bodies, any monotone term table): Nines = the 81 days from the winter-solstice day in nines and no other day; Dog days from the third Geng on/after the summer solstice with the 10/20-day middle period decided by the fifth Geng vs start-of-autumn; Plum rains from the first Bing on/after Grain-in-Ear to the first Wei on/after Slight Heat; pentads 0-4 / 5-9 / 10+. Leaf part (exhaustive execution over every civil date 0002..9998): the same four series plus the commanding stem against the classical allotment table re-encoded independently.',
-    'level_note': 'get_hide_heaven_stem_day parses a packed digit string with str slicing (outside Verus): exhaustive execution only; callee contracts: term days (L-TD), pillar of a day (C07), steps_to (C11), SolarDay::next/subtract (C01)',
-    'functions': ['SolarDay::get_nine_day', 'SolarDay::get_dog_day', 'SolarDay::get_plum_rain_day', 'SolarDay::get_phenology_day', 'LoopTyme::steps_to', 'Into<LoopTyme> for HeavenStem / EarthBranch', 'SolarDay::get_hide_heaven_stem_day (leaf)'],
+    'level_note': 'get_hide_heaven_stem_day parses a packed digit string with str slicing (outside Verus): Kani, one harness per governing term; callee contracts: term days (L-TD), pillar of a day (C07), steps_to (C11), SolarDay::next/subtract (C01)',
+    'functions': ['SolarDay::get_nine_day', 'SolarDay::get_dog_day', 'SolarDay::get_plum_rain_day', 'SolarDay::get_phenology_day', 'LoopTyme::steps_to', 'Into<LoopTyme> for HeavenStem / EarthBranch', 'SolarDay::get_hide_heaven_stem_day'],
     'K': [
         dict(id='c15_k_steps_to', prefix=True, min_count=2, fn='LoopTyme::steps_to', clause='== (target - index) mod size for table sizes 10 and 12, every index and |target| < 2^31 (the steps_to contract of the Verus unit)'),
+        dict(id='c15_k_commanding_stem', prefix=True, min_count=24, fn='SolarDay::get_hide_heaven_stem_day', clause='for each of the 24 governing terms and every day offset 0..=31 of the Jie month: (stem, slot residual/middle/main, day index inside the slot) handed to the constructors == the classical per-month allotment (packed string decoded on the real body; term and offset are stub answers)'),
         dict(id='c15_k_into_loop_stem', fn='Into<LoopTyme> for HeavenStem', clause='keeps the index, size 10 (the verif_into contract of the Verus unit, extraction rule E9)'),
         dict(id='c15_k_into_loop_branch', fn='Into<LoopTyme> for EarthBranch', clause='keeps the index, size 12'),
     ],
